@@ -27,10 +27,13 @@ Record fixes := {
   f_removable : bool;   (* removableTxForRemoveWallet also keeps a transaction that spends another managed wallet's coin *)
   f_rollback : bool;    (* Rollback skips the row bookkeeping of a wallet that has no balance row *)
   f_import_retry : bool; (* the worker retries an import batch that failed on a missing credit instead of dropping the task *)
-  f_start_reorg : bool  (* Start() lets the node's best block go through the reorg logic when there is nothing to catch up by height *)
+  f_start_reorg : bool; (* Start() lets the node's best block go through the reorg logic when there is nothing to catch up by height *)
+  f_rollback_order : bool (* Rollback tolerates a block record that lists the spender of an in-block coin before its creator *)
 }.
-Definition repaired : fixes := {| f_removable := true; f_rollback := true; f_import_retry := true; f_start_reorg := true |}.
-Definition as_found : fixes := {| f_removable := false; f_rollback := false; f_import_retry := false; f_start_reorg := false |}.
+Definition repaired : fixes :=
+  {| f_removable := true; f_rollback := true; f_import_retry := true; f_start_reorg := true; f_rollback_order := true |}.
+Definition as_found : fixes :=
+  {| f_removable := false; f_rollback := false; f_import_retry := false; f_start_reorg := false; f_rollback_order := false |}.
 
 Inductive wst := WReady | WImporting (cursor : Z) | WRemoving.
 
@@ -194,6 +197,32 @@ Definition rb_delete (brs : list brec) (h : Z) (c : credit) : bool :=
 
 Definition is_game (c : credit) : bool := is_staking c || is_binding c.
 
+Fixpoint posN (t : N) (l : list N) : option nat :=
+  match l with
+  | [] => None
+  | x :: r => if (x =? t)%N then Some O else option_map S (posN t r)
+  end.
+
+(* Rollback walks the transactions of a block record BACKWARDS, each one completely (un-spend what it
+   spent, then delete what it created).  A coin created and spent in the same block is handled
+   correctly only if its spender comes later in the record than its creator.  insertMinedTx appends
+   in block order, but the rescan (insertMinedTxForImporting) appends the transactions it adds AFTER
+   those already recorded for other wallets: the creator can then follow the spender, Rollback deletes
+   the credit first and fails on the spender's debit ("unexpected unspend non-existence credit"). *)
+Definition misordered (brs : list brec) (h : Z) (c : credit) : bool :=
+  match c_spent c with
+  | Some (t2, _, hs) =>
+      (h <=? hs) && (hs =? c_height c) &&
+      match brec_at brs hs with
+      | Some br => match posN t2 (br_txs br), posN (c_tx c) (br_txs br) with
+                   | Some i2, Some i1 => Nat.ltb i2 i1
+                   | _, _ => false
+                   end
+      | None => false
+      end
+  | None => false
+  end.
+
 Definition pull_back (h : Z) (s : wst) : wst :=
   match s with
   | WImporting k => WImporting (Z.min k (h - 1))
@@ -218,6 +247,7 @@ Definition xrollback (fx : fixes) (st : xstate) (h : Z) : xres xstate :=
                        | None => false
                        end) cs
   then XPanic
+  else if negb (f_rollback_order fx) && existsb (misordered brs h) cs then XErr
   else
     let cs' := map (fun c => if rb_unspend brs h c then set_spent c None else c)
                    (filter (fun c => negb (rb_delete brs h c)) cs) in
